@@ -53,7 +53,7 @@ func init() {
 				shards = append(shards, fmt.Sprintf("jan:%d:%d", d, g))
 			}
 		}
-		shards = append(shards, "jan-finalizer")
+		shards = append(shards, "jan-finalizer", "bulk")
 		rep.Set("engine", "seqmc BFS over the real Cache with time as an operation (fixpoint over relative deadlines) + vrt/explore with the janitor goroutine, a clock thread and a script thread (virtual ticker)")
 		if !runWorkers(rep, "C08worker", shards, nil) {
 			fmt.Fprintln(os.Stderr, "C08: worker failure")
@@ -76,6 +76,8 @@ func c08worker(arg string) {
 		c08janWorker(arg, def, g)
 	case "jan-finalizer":
 		c08finalizerWorker(arg)
+	case "bulk":
+		c08bulkWorker(arg)
 	}
 }
 
@@ -411,36 +413,27 @@ func (s *c08sys[V]) rel(abs int64) string {
 }
 
 func (s *c08sys[V]) Key() string {
-	var sb strings.Builder
-	items := seqmc.Get(s.ca, "cache", "items")
-	var ks []string
-	for _, k := range items.MapKeys() {
-		ks = append(ks, k.String())
-	}
-	sort.Strings(ks)
+	// The complete private state of the cache (every field, by reflection), with every integer that is
+	// an absolute time (>= the virtual epoch) rendered relative to now and all past instants merged:
+	// so a field a change might add (a cached "earliest deadline", say) is part of the state, while
+	// the space stays finite without a clock horizon.
 	nowNs := s.clock + vrt.Epoch.UnixNano()
-	for _, k := range ks {
-		it := items.MapIndex(reflect.ValueOf(k))
-		obj := seqmc.Get(it.Interface(), "object").Interface()
-		exp := seqmc.Get(it.Interface(), "expiration").Int()
-		r := ""
+	floor := vrt.Epoch.UnixNano() - int64(24*time.Hour)
+	impl := seqmc.DumpRenamed(s.ca, func(i int64) string {
 		switch {
-		case exp == -1:
-			r = "N"
-		case exp == 0:
-			r = "Z"
-		case exp < nowNs:
-			r = "P"
-		default:
-			r = fmt.Sprintf("+%d", (exp-nowNs)/int64(unit))
-			if (exp-nowNs)%int64(unit) != 0 {
-				r = fmt.Sprintf("+%dns", exp-nowNs)
-			}
+		case i < floor:
+			return fmt.Sprint(i)
+		case i < nowNs:
+			return "P"
+		case (i-nowNs)%int64(unit) == 0:
+			return fmt.Sprintf("+%d", (i-nowNs)/int64(unit))
 		}
-		fmt.Fprintf(&sb, "%s=%v@%s;", k, obj, r)
-	}
+		return fmt.Sprintf("+%dns", i-nowNs)
+	})
+	var sb strings.Builder
+	sb.WriteString(impl)
 	sb.WriteString("|")
-	ks = ks[:0]
+	var ks []string
 	for k := range s.model {
 		ks = append(ks, k)
 	}
@@ -517,4 +510,101 @@ func c08replaySeq(a *replayArtefact, file string) int {
 	}
 	fmt.Println("  not reproduced")
 	return 0
+}
+
+// c08bulkWorker: sweeps over many entries. Every combination of n short-lived entries (n up to 160 / 420),
+// p entries without expiry, q long-lived entries and the default expiry in {-1,0,5}: store, let the short
+// ones expire, sweep once with DeleteExpired, and compare Count, List, Get and IsExpired of every entry
+// with the map-with-deadlines model. The BFS covers every history over 3-4 keys; this family covers what
+// depends on how MANY entries a sweep meets (thresholds, rebuilt maps, batch deletions).
+func c08bulkWorker(arg string) {
+	out := newWorkerOut()
+	N := 160
+	if thorough {
+		N = 420
+	}
+	st := wStats{Shard: arg, MinBound: -1, Extra: map[string]int{}}
+	reported := map[string]bool{}
+	fail := func(key, wit, format string, a ...any) {
+		if !reported[key] {
+			reported[key] = true
+			out.finding(wFinding{key, fmt.Sprintf(format, a...), wit, map[string]any{"engine": "conc", "check": "C08", "sub": "C08worker", "shard": arg}})
+		}
+	}
+	var clock int64
+	vrt.FakeClock = &clock
+	defer func() { vrt.FakeClock = nil }()
+	for _, def := range []int{-1, 0, 5} {
+		for n := 0; n <= N; n += 1 + n/64 {
+			for p := 0; p <= 2; p++ {
+				for q := 0; q <= 2; q += 2 {
+					clock = 0
+					st.Scenarios++
+					wit := fmt.Sprintf("default=%d: %d entries without expiry, %d entries with duration 3, Advance 4, %d entries with duration 7, DeleteExpired", def, p, n, q)
+					ca := cache.New[string, int](time.Duration(def)*unit, 0)
+					for i := 0; i < p; i++ {
+						d := cache.NoExpiration
+						if def <= 0 && i == 1 {
+							d = cache.DefaultExpiration // a default of zero or less never expires either
+						}
+						ca.Set(fmt.Sprintf("perm%d", i), 1000+i, d)
+					}
+					for i := 0; i < n; i++ {
+						ca.Set(fmt.Sprintf("s%d", i), i, 3*unit)
+					}
+					clock += int64(4 * unit)
+					for i := 0; i < q; i++ {
+						ca.Set(fmt.Sprintf("long%d", i), 2000+i, 7*unit)
+					}
+					st.Execs += p + n + q + 1
+					if c := ca.Count(); c != p+n+q {
+						fail("Cache.Count/bulk/before-sweep", wit, "Count = %d before the sweep, want %d stored entries", c, p+n+q)
+					}
+					for i := 0; i < n; i += 1 + n/8 {
+						if !ca.IsExpired(fmt.Sprintf("s%d", i)) {
+							fail("Cache.IsExpired/bulk/false-for-expired-stored-entry", wit, "IsExpired(s%d) = false before the sweep", i)
+						}
+					}
+					ca.DeleteExpired()
+					if c := ca.Count(); c != p+q {
+						fail("Cache.DeleteExpired/bulk/does-not-remove-exactly-the-expired-entries", wit, "Count = %d after the sweep, want %d (the %d entries without expiry and the %d live ones)", c, p+q, p, q)
+					}
+					l := ca.List()
+					for i := 0; i < p; i++ {
+						k := fmt.Sprintf("perm%d", i)
+						if it, err := ca.Get(k); err != nil || it.Val() != 1000+i {
+							fail("Cache.DeleteExpired/bulk/removes-entry-without-expiry", wit, "Get(%s) = (%v, %v) after the sweep", k, it.Val(), err)
+						}
+						if _, ok := l[k]; !ok {
+							fail("Cache.DeleteExpired/bulk/removes-entry-without-expiry", wit, "List() lacks %s after the sweep", k)
+						}
+					}
+					for i := 0; i < q; i++ {
+						k := fmt.Sprintf("long%d", i)
+						if it, err := ca.Get(k); err != nil || it.Val() != 2000+i {
+							fail("Cache.DeleteExpired/bulk/removes-live-entry", wit, "Get(%s) = (%v, %v) after the sweep", k, it.Val(), err)
+						}
+					}
+					for i := 0; i < n; i += 1 + n/8 {
+						k := fmt.Sprintf("s%d", i)
+						if _, err := ca.Get(k); err == nil {
+							fail("Cache.Get/bulk/expired-entry-returned", wit, "Get(%s) succeeds after expiry and sweep", k)
+						}
+						if _, ok := l[k]; ok {
+							fail("Cache.DeleteExpired/bulk/expired-entry-survives", wit, "List() still holds %s after the sweep", k)
+						}
+					}
+					// the survivors keep working: past the long-lived entries' deadline (stored at 4, duration 7)
+					clock += int64(8 * unit)
+					ca.DeleteExpired()
+					if c := ca.Count(); c != p {
+						fail("Cache.DeleteExpired/bulk/second-sweep", wit, "Count = %d after the long-lived entries expired and a second sweep, want %d", c, p)
+					}
+				}
+			}
+		}
+	}
+	st.Steps, st.States = st.Execs, st.Scenarios
+	st.Samples = []string{fmt.Sprintf("bulk sweeps: %d configurations, up to %d short-lived entries", st.Scenarios, N)}
+	out.stats(st)
 }
